@@ -16,13 +16,37 @@ _GEN_TIE = {
             "store_sync_meta_block_generated, write_empty_last_meta_block_generated: the generated operation list run on ANY writer (runOps, BV/Lemmas/RsWriter.lean) equals the header model"),
     "C15": ("BV.Props.C15Gen", "EncodeWindowBits", "encode_window_bits_generated (every lgwin < 64, both header forms), encode_window_bits_ignores_outs"),
 }
+# Further translated functions (session 3: loops, arrays, structs by value, enums, `_ok` companions).
+# property -> [(Props module, generated file, functions, theorems)]
+_GEN_TIE2 = {
+    "C07": [("BV.Props.C07Gen", "FnC07", "FixedQueue::new, can_push, size, push, pop, how_much_free_space (T := usize; struct by value, `data` as a list of 16 options)",
+             "new_generated, can_push_generated, size_generated, how_much_free_space_generated, push_generated (Err exactly when the model says full, else Ok and the model's queue), pop_generated (returned slot and new queue), push_ok_generated / pop_ok_generated (no index / overflow panic) — every queue with its 16 slots and start + size + 1 < 2^64")],
+    "C19": [("BV.Props.C19Gen", "FnC19", "BROTLI_UNALIGNED_LOAD32, BROTLI_UNALIGNED_LOAD64, Hash14, H2Sub/H3Sub/H4Sub/H54Sub::HashBytes",
+             "load32_generated, load64_generated (little-endian value of the loaded bytes), hash_bytes_h2/h3/h4/h54_generated (equal to the hash parameter of the model instances BV.Hasher.H2/H3/H4/H54 on every slice of >= 8 bytes), hash14_generated, load*_ok_generated / hash_bytes_ok_generated (the Rust code panics exactly on shorter slices)")],
+}
+_GEN_TIE2["C01"] = [("BV.Props.C01mGen", "FnC01m", "ComputeDistanceCode",
+    "compute_distance_code_generated (equal to the match-finder model's computeDistanceCode — the distance-code step of emitCommand — for every usize distance / limit and every distance cache of >= 4 entries), compute_distance_code_ok_generated (no index or shift panic on such caches)")]
+_GEN_TIE_LIST = {}
 for _pid, (_mod, _fns, _ths) in _GEN_TIE.items():
-    if _pid in PROPS and _mod not in PROPS[_pid]["lean_modules"]:
+    _GEN_TIE_LIST.setdefault(_pid, []).append((_mod, "Fn" + _mod[-6:-3], _fns, _ths))
+for _pid, _l in _GEN_TIE2.items():
+    _GEN_TIE_LIST.setdefault(_pid, []).extend(_l)
+_TB = ("tools/rs2lean.py (parser + typed translation: integer arithmetic, loops through the fuel/fold combinators, arrays as lists, structs by value, "
+       "enums as discriminants, Option/Result, bit-writer lists; self-checked by tools/test_rs2lean.py: construct regression, differential runs against the "
+       "real functions, seeded edits) and lean/BV/Model/RsPrelude.lean (wrapS, toU, sop, clz: meaning of fixed-width signed arithmetic and leading_zeros; "
+       "forRange*/whileLoop*: meaning of loops, fuel 2^64)")
+for _pid, _l in _GEN_TIE_LIST.items():
+    if _pid not in PROPS:
+        continue
+    for (_mod, _gen, _fns, _ths) in _l:
+        if _mod in PROPS[_pid]["lean_modules"]:
+            continue
         PROPS[_pid]["lean_modules"] = PROPS[_pid]["lean_modules"] + [_mod]
         PROPS[_pid]["rule"] = PROPS[_pid].get("rule", "") + (
             " Translator tie (control flow): tools/rs2lean.py re-translates the BODIES of " + _fns +
-            " from the current Rust text into Lean on every run (BV/Gen/Fn" + _mod[-6:-3] + ".lean; release-build semantics: wrapping"
-            " arithmetic, masked shift amounts, truncating casts; asserts dropped) and " + _mod + " proves them equal to the hand-written model"
-            " the property theorems are stated over: " + _ths + ". A change of a body changes the generated definition and the kernel re-checks the equation.")
-        PROPS[_pid]["trusted_base"] = PROPS[_pid].get("trusted_base", []) + [
-            "tools/rs2lean.py (parser + typed translation of the loop-free integer subset) and lean/BV/Model/RsPrelude.lean (wrapS, toU, sop, clz: meaning of fixed-width signed arithmetic and leading_zeros)"]
+            " from the current Rust text into Lean on every run (BV/Gen/" + _gen + ".lean; release-build semantics: wrapping"
+            " arithmetic, masked shift amounts, truncating casts; asserts dropped; `_ok` companions state the debug-build no-panic conditions) and " + _mod +
+            " proves them equal to the hand-written model the property theorems are stated over: " + _ths +
+            ". A change of a body changes the generated definition and the kernel re-checks the equation.")
+    if _TB not in PROPS[_pid].get("trusted_base", []):
+        PROPS[_pid]["trusted_base"] = [t for t in PROPS[_pid].get("trusted_base", []) if not t.startswith("tools/rs2lean.py")] + [_TB]
